@@ -48,6 +48,7 @@ inductive Obs (α : Type) where
   | valueError                           -- `add` raised ValueError
   | out (v : α) (started : Nat)          -- `next` returned v; `started` events left the queue in this step
   | stop                                 -- `next` raised StopIteration
+  deriving DecidableEq
 
 structure MState (α : Type) where
   count : Rat
